@@ -626,7 +626,7 @@ Definition run_args (e : sexp) : sexp :=
       | Some snake, Some Sc, Some vds =>
           match generate Sc (naming Sc snake [rc] vds) vds with
           | Some g => L [A "ok"; sGenerated g; sB (sig_ok g); sB (names_ok Sc snake vds);
-                         sB (inputs_ok Sc snake); sB (g_f21 Sc)]
+                         sB (inputs_ok Sc snake); sB (g_f21 Sc); sB (forallb (ser_name_ok Sc) vds)]
           | None => A "gen-error" end
       | _, _, _ => sErr "gen: decode" end
   | L [A "call"; sn; A rc; sch; vs; kw] =>
@@ -642,6 +642,14 @@ Definition run_args (e : sexp) : sexp :=
       match schema_of_sexp sch, dList vardef_of_sexp vs, dObjKV prov with
       | Some Sc, Some vds, Some kv => sOptB (coerce_vars FUEL Sc vds kv)
       | _, _, _ => sErr "coerce: decode" end
+  | L [A "tables"] =>
+      (* constants of the model, compared with /repo's source on every run (K2) *)
+      L [L (map (fun b => L [A (fst b); A (input_scalar_py (snd b))])
+               [("Int", BInt); ("Float", BFloat); ("String", BString); ("Boolean", BBoolean); ("ID", BID)]);
+         L (map A (reserved_names []));
+         A (item_name 7);
+         L (map A (variable_names {| g_params := []; g_dict := [] |}));
+         A (ann_str (AUnionUnset (AOptional (AList (AName "T")))))]
   | L [A "split"; A s] =>
       L [sOpt A (fst (split_dotted s)); A (snd (split_dotted s))]
   | _ => sErr "args: bad command"
